@@ -58,6 +58,30 @@ type vfRawReq struct {
 	Body      string       `json:"body"` // none, unary, stream
 	Unary     vfItem       `json:"unary"`
 	Stream    []vfItem     `json:"stream"`
+	// ListLength: the header list ends with a Content-Length entry that states the exact size of the body (only drawn
+	// for bodies without compression, whose size is known beforehand)
+	ListLength bool `json:"listContentLength,omitempty"`
+}
+
+// vfKnownBodyLen: the number of body bytes of a raw request without compressed parts (-1: not known beforehand).
+func vfKnownBodyLen(c vfRawReq) int {
+	switch c.Body {
+	case "unary":
+		if c.Unary.Compression > 1 {
+			return -1
+		}
+		return len(c.Unary.Data)
+	case "stream":
+		n := 0
+		for _, it := range c.Stream {
+			if it.Compression > 1 {
+				return -1
+			}
+			n += 5 + len(it.Data)
+		}
+		return n
+	}
+	return -1
 }
 
 var vfCompNames = map[int32]string{0: "identity", 1: "identity", 2: "gzip", 3: "br", 4: "zstd", 5: "deflate", 6: "snappy"}
@@ -111,6 +135,8 @@ type vfSeen struct {
 	Header http.Header
 	Body   []byte
 	Proto  int
+	Length int64
+	TE     []string
 }
 
 type vfRecordingServer struct {
@@ -124,7 +150,7 @@ func vfStartRecorder(h2 bool) (*vfRecordingServer, error) {
 	rs := &vfRecordingServer{seen: map[string]*vfSeen{}}
 	handler := http.Handler(http.HandlerFunc(func(w http.ResponseWriter, r *http.Request) {
 		body, _ := io.ReadAll(r.Body)
-		s := &vfSeen{Method: r.Method, Path: r.URL.Path, Query: r.URL.Query(), Header: r.Header.Clone(), Body: body, Proto: r.ProtoMajor}
+		s := &vfSeen{Method: r.Method, Path: r.URL.Path, Query: r.URL.Query(), Header: r.Header.Clone(), Body: body, Proto: r.ProtoMajor, Length: r.ContentLength, TE: r.TransferEncoding}
 		id := r.URL.Query().Get("verif-id")
 		rs.mu.Lock()
 		rs.seen[id] = s
@@ -190,6 +216,16 @@ func vfRawReqCheck(c vfRawReq) error {
 	id := fmt.Sprintf("id%d", vfRecSeq)
 	vfRecMu.Unlock()
 	raw := c.proto()
+	listed := -1
+	if c.ListLength {
+		// (a listed "Content-Length: 0" is not asserted: Go's transport takes length 0 together with a body as "unknown"
+		// and sends an empty chunked body - see DESIGN.md, C17 "not asserted")
+		if listed = vfKnownBodyLen(c); listed > 0 {
+			raw.Headers = append(raw.Headers, &conformancev1.Header{Name: "Content-Length", Value: []string{fmt.Sprint(listed)}})
+		} else {
+			listed = -1
+		}
+	}
 	// tag the request so the recorder can find it: an extra raw query param
 	raw.RawQueryParams = append(raw.RawQueryParams, &conformancev1.Header{Name: "verif-id", Value: []string{id}})
 	// the runner appends the test name to the headers of a raw request as well
@@ -301,6 +337,9 @@ func vfRawReqCheck(c vfRawReq) error {
 		default:
 			return verifkit.Violf("raw-req-original-leak", "header %q: %q was not listed in the raw request (the built request leaked)", k, seen.Header[k])
 		}
+	}
+	if listed >= 0 && (seen.Length != int64(listed) || len(seen.TE) > 0) {
+		return verifkit.Violf("raw-req-header", "the raw request lists Content-Length: %d (%s body) but the server saw content length %d, transfer encoding %q", listed, c.Body, seen.Length, seen.TE)
 	}
 	if bytes.Contains(seen.Body, []byte("ORIGINAL-REQUEST-DATA")) {
 		return verifkit.Violf("raw-req-original-leak", "the body of the request the client would have built reached the server")
@@ -424,6 +463,7 @@ func TestVerifC17RawRequest(t *testing.T) {
 				}
 				c.Headers = append(c.Headers, h)
 			}
+			c.ListLength = rapid.IntRange(0, 2).Draw(t, "listLength") == 0
 			c.Body = rapid.SampledFrom([]string{"none", "unary", "stream"}).Draw(t, "body")
 			switch c.Body {
 			case "unary":
@@ -445,7 +485,11 @@ func TestVerifC17RawRequest(t *testing.T) {
 					nt = nt || len(c.Stream) >= 2
 				}
 			}
-			return []string{"body:" + c.Body, c.Verb}, nt
+			cl := []string{"body:" + c.Body, c.Verb}
+			if c.ListLength && vfKnownBodyLen(c) > 0 {
+				cl = append(cl, "content-length-listed")
+			}
+			return cl, nt
 		},
 	})
 }
